@@ -378,6 +378,16 @@ def hand(repo):
                   "                self.ast.var_object_dict[var_name] = var_value or self.ast.var_object_dict[var_name]\n"))
     A(text_mutant('c11-handler-state-in-vars-self', OFF_D, "        sample_return = []\n        buffer_left = collections.deque(maxlen=(end + 1))\n",
                   "        sample_return = vars(self).setdefault('since_scratch', [])\n        buffer_left = collections.deque(maxlen=(end + 1))\n", 0))
+    # round-6/7 rules
+    A(text_mutant('c13-timestamp-int-coercion', 'rtamt/spec/abstract_specification.py', "            i = args[0]\n            dataset = args[1]\n            return self.online_interpreter.update(i, dataset)",
+                  "            i = int(args[0])\n            dataset = args[1]\n            return self.online_interpreter.update(i, dataset)"))
+    A(text_mutant('c09-declare-const-rounded', 'rtamt/spec/abstract_specification.py', "        self.ast.declare_const(const_name, const_type, const_val)\n",
+                  "        if isinstance(const_val, float):\n            const_val = round(const_val, 6)\n        self.ast.declare_const(const_name, const_type, const_val)\n"))
+    A(text_mutant('c20-period-on-ast-only-if-not-default', 'rtamt/spec/abstract_specification.py', "        self.ast.sampling_period = sampling_period\n        self.ast.sampling_period_unit = unit\n",
+                  "        if unit != 's':\n            self.ast.sampling_period = sampling_period\n            self.ast.sampling_period_unit = unit\n"))
+    A(text_mutant('c01-long-window-running-max-any-begin', OFF_D, "        sample = [-float(\"inf\") for j in range(end)] + sample\n",
+                  "        if end >= len(sample):\n            sample_return = []\n            prev_out = -float(\"inf\")\n            for i in sample:\n                prev_out = max(i, prev_out)\n                sample_return.append(prev_out)\n            return sample_return\n        sample = [-float(\"inf\") for j in range(end)] + sample\n"))
+    A(text_mutant('c12-conjunction-extends-left-vars', 'rtamt/syntax/node/ltl/conjunction.py', "self.in_vars = child1.in_vars + child2.in_vars", "self.in_vars = child1.in_vars\n        self.in_vars += child2.in_vars"))
     # C02 / C09 / C05 memo of the update visitor
     A(text_mutant('c02-memo-truthiness', 'rtamt/semantics/abstract_online_interpreter.py', 'if node.name in self.visited:', 'if self.visited.get(node.name):', 0))
     return out
@@ -555,6 +565,17 @@ def twins(repo):
         (OFF_D, E.replace("import collections\n", "import collections\nimport itertools\n")),
         (OFF_D, E.replace("        if sample_len <= end:\n            sample = sample + [float('inf')] * (end - sample_len + 1)\n",
                           "        if sample_len <= end and begin == 0:\n            return list(itertools.accumulate(reversed(sample), min))[::-1]\n        if sample_len <= end:\n            sample = sample + [float('inf')] * (end - sample_len + 1)\n"))]})
+    # round-6/7 twins
+    A(text_twin('twin-long-window-shortcut-for-zero-begin', OFF_D, "        sample = [-float(\"inf\") for j in range(end)] + sample\n",
+                "        if end >= len(sample) and begin == 0:\n            sample_return = []\n            prev_out = -float(\"inf\")\n            for i in sample:\n                prev_out = max(i, prev_out)\n                sample_return.append(prev_out)\n            return sample_return\n        sample = [-float(\"inf\") for j in range(end)] + sample\n"))
+    A(text_twin('twin-period-stored-on-ast-last', 'rtamt/spec/abstract_specification.py', """        # the pastifier needs the period as well: `next` looks one sample ahead
+        self.ast.sampling_period = sampling_period
+        self.ast.sampling_period_unit = unit
+        if hasattr(self, 'online_interpreter'):""", """        self.ast.sampling_period_unit = unit
+        self.ast.sampling_period = sampling_period
+        if hasattr(self, 'online_interpreter'):"""))
+    A(text_twin('twin-timestamp-through-local', 'rtamt/spec/abstract_specification.py', "            i = args[0]\n            dataset = args[1]\n            return self.online_interpreter.update(i, dataset)",
+                "            timestamp = args[0]\n            i = timestamp\n            dataset = args[1]\n            return self.online_interpreter.update(i, dataset)"))
     A({'id': 'twin-reformat-discrete-interpreter', 'kind': 'twin', 'props': list(ALL), 'edits': [('rtamt/semantics/discrete_time_interpreter.py', _reformat)]})
     return out
 
